@@ -37,11 +37,56 @@ class Module:
             self.tree = ast.parse(pysrc, filename=relpath)
         except SyntaxError as exc:
             raise AnalysisError(f"cannot parse {relpath}: {exc}") from exc
+        if not self.is_pyx:
+            self.tree = _Canonical().visit(self.tree)
+            ast.fix_missing_locations(self.tree)
+        self.raw_tree = ast.parse(pysrc, filename=relpath)  # never inlined (anchored rules on helper calls)
+        if not self.is_pyx:
+            self.raw_tree = _Canonical().visit(self.raw_tree)
+            ast.fix_missing_locations(self.raw_tree)
+        for node in ast.walk(self.raw_tree):
+            for child in ast.iter_child_nodes(node):
+                child._parent = node  # type: ignore[attr-defined]
+        self.absorbed: set = set()  # private helpers whose every use was inlined into its callers
+        self.inlined: Dict[str, list] = {}  # function -> helpers inlined into it
+        if not self.is_pyx and os.environ.get("VERIF_NO_INLINE") != "1":
+            self._inline_helpers()
         for node in ast.walk(self.tree):
             for child in ast.iter_child_nodes(node):
                 child._parent = node  # type: ignore[attr-defined]
         self.functions: Dict[str, ast.AST] = {}
         self._index_functions(self.tree, "")
+
+    def _inline_helpers(self) -> None:
+        from .inline import inlinable_helpers, inline_function
+
+        helpers = inlinable_helpers(self.tree)
+        if not helpers:
+            return
+        used_all = set()
+
+        def process(body):
+            for idx, node in enumerate(body):
+                if isinstance(node, ast.FunctionDef):
+                    new, used = inline_function(node, helpers)
+                    if used:
+                        body[idx] = new
+                        self.inlined[node.name] = sorted(used)
+                        used_all.update(used)
+                elif isinstance(node, ast.ClassDef):
+                    process(node.body)
+
+        process(self.tree.body)
+        for name in used_all:
+            remaining = 0
+            for node in self.tree.body:
+                if isinstance(node, ast.FunctionDef) and node.name == name:
+                    continue
+                for sub in ast.walk(node):
+                    if isinstance(sub, ast.Name) and sub.id == name and isinstance(sub.ctx, ast.Load):
+                        remaining += 1
+            if remaining == 0:
+                self.absorbed.add(name)
 
     def _index_functions(self, node: ast.AST, prefix: str) -> None:
         for child in ast.iter_child_nodes(node):
@@ -63,6 +108,25 @@ class Module:
 
     def __repr__(self) -> str:
         return f"<Module {self.name}>"
+
+
+class _Canonical(ast.NodeTransformer):
+    """Equivalent numpy spellings are analysed in one canonical form:
+    ``x.any(...)`` / ``x.all(...)`` (ndarray methods) become ``numpy.any(x, ...)`` / ``numpy.all(x, ...)``."""
+
+    def visit_Call(self, node):
+        self.generic_visit(node)
+        func = node.func
+        if isinstance(func, ast.Attribute) and func.attr in ("any", "all") and not (
+            isinstance(func.value, ast.Name) and func.value.id in ("numpy", "np", "numpoly", "builtins")
+        ):
+            new = ast.Call(
+                func=ast.Attribute(value=ast.Name(id="numpy", ctx=ast.Load()), attr=func.attr, ctx=ast.Load()),
+                args=[func.value] + list(node.args),
+                keywords=list(node.keywords),
+            )
+            return ast.copy_location(new, node)
+        return node
 
 
 # ---------------------------------------------------------------------------
@@ -241,6 +305,19 @@ class Repo:
             raise AnalysisError(f"anchor module {name} is missing")
         return self.modules[name]
 
+    def raw_function(self, modname: str, qualname: str) -> ast.FunctionDef:
+        """The function as written (helpers not inlined)."""
+        module = self.module(modname)
+        if not hasattr(module, "raw_functions"):
+            module.raw_functions = {}
+            saved = module.functions
+            module.functions = module.raw_functions
+            module._index_functions(module.raw_tree, "")
+            module.functions = saved
+        if qualname not in module.raw_functions:
+            raise AnalysisError(f"anchor function {modname}:{qualname} is missing")
+        return module.raw_functions[qualname]
+
     def function(self, modname: str, qualname: str) -> ast.FunctionDef:
         module = self.module(modname)
         if qualname not in module.functions:
@@ -251,6 +328,13 @@ class Repo:
         for module in self.modules.values():
             for qual, node in module.functions.items():
                 yield module, qual, node
+
+    def analysed_functions(self):
+        """All functions except private helpers that were inlined into every caller."""
+        for module, qual, node in self.all_functions():
+            if node.name in module.absorbed and "." not in qual:
+                continue
+            yield module, qual, node
 
     def digest(self) -> Dict[str, str]:
         return {m.relpath: m.sha256 for m in self.modules.values()}
